@@ -29,6 +29,15 @@ static_assert(GLM_CONFIG_SIMD == GLM_DISABLE, "C05 model assumes func_integer_si
 
 typedef uint64_t u64;
 
+// -DC05_NO_NARROW: fallback used by checks/c05.py when this file does not compile otherwise — on a tree without
+// fix_bitfieldReverse / fix_bitfieldInsert the 8- and 16-bit instances of these two functions are ill-formed; they are then
+// left out (and reported) so that the rest can still be compared.
+#ifdef C05_NO_NARROW
+template<typename T> struct Narrow { static const bool value = sizeof(T) < 4; };
+#else
+template<typename T> struct Narrow { static const bool value = false; };
+#endif
+
 // ------------------------------------------------------------------ rng (xoshiro256**)
 static u64 S[4];
 static inline u64 rotl(u64 x, int k) { return (x << k) | (x >> (64 - k)); }
@@ -89,7 +98,7 @@ template<typename T> static u64 unary_s(int fn, T v) {
 	case BITCOUNT: return rawi(glm::bitCount(v));
 	case FINDLSB: return rawi(glm::findLSB(v));
 	case FINDMSB: return rawi(glm::findMSB(v));
-	default: return raw<T>(glm::bitfieldReverse(v));
+	default: if constexpr (Narrow<T>::value) return 0; else return raw<T>(glm::bitfieldReverse(v));
 	}
 }
 template<int L, typename T> static void unary_v(int fn, const u64* in) {
@@ -100,11 +109,12 @@ template<int L, typename T> static void unary_v(int fn, const u64* in) {
 	case BITCOUNT: { glm::vec<L, int> r = glm::bitCount(v); for (int i = 0; i < L; ++i) out[i] = rawi(r[i]); break; }
 	case FINDLSB: { glm::vec<L, int> r = glm::findLSB(v); for (int i = 0; i < L; ++i) out[i] = rawi(r[i]); break; }
 	case FINDMSB: { glm::vec<L, int> r = glm::findMSB(v); for (int i = 0; i < L; ++i) out[i] = rawi(r[i]); break; }
-	default: { glm::vec<L, T> r = glm::bitfieldReverse(v); for (int i = 0; i < L; ++i) out[i] = raw<T>(r[i]); break; }
+	default: if constexpr (!Narrow<T>::value) { glm::vec<L, T> r = glm::bitfieldReverse(v); for (int i = 0; i < L; ++i) out[i] = raw<T>(r[i]); } break;
 	}
 	for (int i = 0; i < L; ++i) emit(FN[fn], FORM[L], Tag<T>::n(), raw<T>(val<T>(in[i])), 0, 0, 0, out[i], 0);
 }
 template<typename T> static void unary(int fn, int form, const u64* in) {
+	if (Narrow<T>::value && fn == REVERSE) return;
 	switch (form) {
 	case 0: emit(FN[fn], "s", Tag<T>::n(), raw<T>(val<T>(in[0])), 0, 0, 0, unary_s<T>(fn, val<T>(in[0])), 0); break;
 	case 1: unary_v<1, T>(fn, in); break;
@@ -132,12 +142,14 @@ template<typename T> static void extract(int form, const u64* in, int off, int b
 template<int L, typename T> static void insert_v(const u64* b, const u64* n, int off, int bits) {
 	glm::vec<L, T> vb, vn;
 	for (int i = 0; i < L; ++i) { vb[i] = val<T>(b[i]); vn[i] = val<T>(n[i]); }
-	glm::vec<L, T> r = glm::bitfieldInsert(vb, vn, off, bits);
+	glm::vec<L, T> r(0);
+	if constexpr (!Narrow<T>::value) r = glm::bitfieldInsert(vb, vn, off, bits);
 	for (int i = 0; i < L; ++i) emit("bitfieldInsert", FORM[L], Tag<T>::n(), raw<T>(vb[i]), raw<T>(vn[i]), (u64)off, (u64)bits, raw<T>(r[i]), 0);
 }
 template<typename T> static void insert(int form, const u64* b, const u64* n, int off, int bits) {
+	if (Narrow<T>::value) return;
 	switch (form) {
-	case 0: { T vb = val<T>(b[0]), vn = val<T>(n[0]); emit("bitfieldInsert", "s", Tag<T>::n(), raw<T>(vb), raw<T>(vn), (u64)off, (u64)bits, raw<T>(glm::bitfieldInsert(vb, vn, off, bits)), 0); break; }
+	case 0: { T vb = val<T>(b[0]), vn = val<T>(n[0]); T r = 0; if constexpr (!Narrow<T>::value) r = glm::bitfieldInsert(vb, vn, off, bits); emit("bitfieldInsert", "s", Tag<T>::n(), raw<T>(vb), raw<T>(vn), (u64)off, (u64)bits, raw<T>(r), 0); break; }
 	case 1: insert_v<1, T>(b, n, off, bits); break;
 	case 2: insert_v<2, T>(b, n, off, bits); break;
 	case 3: insert_v<3, T>(b, n, off, bits); break;
@@ -311,6 +323,7 @@ template<typename T> static void sweep_ins8(long only) {         // block = one 
 	u64 b[4], n[4]; long idx = 0;
 	for (int off = 0; off <= 8; ++off) for (int bits = 0; off + bits <= 8; ++bits, ++idx) {
 		if (only >= 0 && idx != only) continue;
+		if (Narrow<T>::value) continue;
 		g_h = 0;
 		for (u64 x = 0; x < 256; ++x) for (u64 y = 0; y < 256; ++y) { b[0] = x; n[0] = y; insert<T>(0, b, n, off, bits); }
 		if (g_hash) printf("BLOCK %ld %llu\n", idx, (unsigned long long)g_h);
